@@ -59,13 +59,15 @@ func (state *singleRateLimitState) TryToIncrement(
 
 func (state *singleRateLimitState) Counter() int64 {
 	// Note: windowSize might not be up-to-date if Increment() was not called
-	// after windowSize was changed using apply_policies.
-	// This is an edge-case which only happens if apply_policies was called
-	// but no requests were made since then.
+	// after windowSize was changed using apply_policies, so reading the counter
+	// must not settle the window: doing that with the stale size would set an end
+	// time off the new grid and let the next window admit more than its share.
 	state.mutex.Lock()
 	defer state.mutex.Unlock()
 
-	state.ensureWindowIsUpdated()
+	if !state.clock.Now().Before(state.windowEndTime) {
+		return 0
+	}
 	return state.counter
 }
 
